@@ -332,6 +332,56 @@ def to_event(c, res, devices):
     return ev
 
 
+def to_prog_op(o):
+    """Operand of an instruction-level case -> operand of an abstract program line (prog.py)."""
+    import prog as P
+    if o["k"] == "r":
+        return P.R(o["n"])
+    if o["k"] == "e":
+        return P.E(P.lit(o["v"]))
+    return P.IX(o["reg"], o["mode"], P.lit(o["q"]))
+
+
+def device_sequences(g, devices):
+    """C13 on whole programs: per device, all the forms it has in one program with a label after each and a table of
+    the labels (same machine code and layout as the specification says, i.e. as with no device apart from lds/sts), and
+    every form it lacks placed after forms of the same mnemonic that it has (must still be rejected)."""
+    import prog as P
+    import copy
+    full = Gen(g.t, g.dev, 1, "quick")
+    gen_c13(full)
+    by_dev = {}
+    for c in full.cases:
+        by_dev.setdefault(c["device"], []).append(c)
+    out = []
+    for devname, cs in sorted(by_dev.items()):
+        flags = devices[devname]["flags"] if devname else []
+        core = "reduced" if "Avr8l" in flags else "classic"
+        have, lack = [], []
+        for c in cs:
+            if any(cl in g.t["relclass"] for sg in g.t["sigs"][c["mn"]][core] for cl in sg):
+                continue                      # relative operands are tied to their address
+            (lack if c.get("unavailable") else have).append(c)
+        head = [P.line("device", n=devname)] if devname else []
+        # classification is the specification's business: both lists are only *orders* of lines; Trace_Asm decides
+        lines, labels = [], []
+        for i, c in enumerate(cs[::3]):
+            if any(cl in g.t["relclass"] for sg in g.t["sigs"][c["mn"]][core] for cl in sg):
+                continue
+            lines.append(P.instr(c["mn"], *[to_prog_op(o) for o in c["ops"]]))
+        # (a) one program per form: three forms of other mnemonics, the form, a label, the label's value
+        for i, c in enumerate(cs):
+            if any(cl in g.t["relclass"] for sg in g.t["sigs"][c["mn"]][core] for cl in sg):
+                continue
+            same = [x for x in cs if x["mn"] == c["mn"] and x is not c
+                    and not any(cl in g.t["relclass"] for sg in g.t["sigs"][x["mn"]][core] for cl in sg)][:4]
+            body = [P.instr(x["mn"], *[to_prog_op(o) for o in x["ops"]]) for x in same]
+            body.append(P.instr(c["mn"], *[to_prog_op(o) for o in c["ops"]]))
+            body += [P.label("after"), P.instr("rjmp", P.E(P.sym("after"))), P.data(2, P.E(P.sym("after")))]
+            out.append((devname, head + body))
+    return out
+
+
 GENS = {"C01": gen_c01, "C04": gen_c04, "C13": gen_c13}
 
 
@@ -403,6 +453,28 @@ def check(prop, tier, seed):
                       "observed": obs,
                       "expected": {"ok": exp["ok"], "words": ["%04x" % w for w in exp["w"]]}}, matcher)
         v.summary(lambda x: (x["mn"], x["device"], x["observed"]["r"], "expected " + ("ok" if x["expected"]["ok"] else "err")))
+        seqcov = None
+        if prop in ("C13", "C01"):
+            # whole programs: forms of one mnemonic in sequence (each earlier form may be one the device has), then a label
+            import prog as P
+            seqs = device_sequences(g, devices)
+            if prop == "C01":
+                # every legal form in the company of other forms and followed by a label, with no device and on the reduced core
+                seqs = [(dn, pr) for dn, pr in seqs if dn == "" or "Avr8l" in devices[dn]["flags"]]
+            sjobs = [{"k": "str", "id": i, "src": P.render(pr)} for i, (dn, pr) in enumerate(seqs)]
+            sres = run_jobs(sjobs)
+            sevents = [P.event(pr, sres[i], P.devs_for(pr, devices), True, False, ()) for i, (dn, pr) in enumerate(seqs)]
+            # a program whose earlier forms already fail tells nothing new: the specification decides what must happen anyway
+            srej, sstats = validate_events(sevents, "Trace_Asm", scratch)
+            for i in sorted(srej):
+                dn, pr = seqs[i]
+                v.reject({"source": sjobs[i]["src"], "mn": "sequence", "ops": [], "device": dn, "flags": devices[dn]["flags"] if dn else [], "addr": 0,
+                          "tag": "sequence", "observed": {"r": sres[i]["r"], "text": sres[i].get("text", "")[:200], "words": [sres[i].get("code", "")[:80]]},
+                          "expected": {"ok": bool(srej[i].get("ok")), "words": []}}, matcher)
+            seqcov = {"programs": len(seqs), "rejected": len(srej), "states": sstats["states"],
+                      "rule": "per device and form: up to four other forms of the same mnemonic, the form, a label, a jump to it and its value"}
+            stats["states"] += sstats["states"]
+            stats["transitions"] += sstats["transitions"]
         mc = None
         if prop == "C01" and tier == "thorough":
             mc = model_check("MC_Isa", scratch, workers=8, xmx="8g", coverage=False)
@@ -423,6 +495,7 @@ def check(prop, tier, seed):
             "rejected_events": len([i for i in rejected if i < len(events)]),
             "binding_selftest": "%d/%d corrupted events rejected" % (ncan, len(can)),
             "tlc": stats, "harness_build_s": round(build_s, 1), "model_checking_of_spec": mc or "MC_Isa runs in the thorough tier",
+            "device_sequences": seqcov,
             "exhaustive": prop == "C13" or (prop == "C01"),
             "exhaustive_note": "complete for all one-word forms; lds/sts 16-bit and jmp/call 22-bit address spaces are boundary + seeded random",
             "samples": [{"source": source_of(cases[i]), "event": events[i]} for i in
